@@ -46,8 +46,9 @@ def make_table(rng, n, *, weights=True, redshifts=True, patch=None, degrees=True
     return out
 
 
-def write_source(kind, path, cols, *, row_group_size=None):
-    """Write the columns to a file of the given kind and return the path."""
+def write_source(kind, path, cols, *, row_group_size=None, decoy_rows=None):
+    """Write the columns to a file of the given kind and return the path.  FITS with ``decoy_rows``: the
+    table goes to extension 2 and extension 1 holds another table (same columns, that many rows)."""
     if kind == "hdf5":
         import h5py
 
@@ -57,10 +58,18 @@ def write_source(kind, path, cols, *, row_group_size=None):
     elif kind == "fits":
         from astropy.io import fits
 
-        hdu = fits.BinTableHDU.from_columns([fits.Column(name=k, array=v, format={
-            "f8": "D", "f4": "E", "i8": "K", "i4": "J", "u2": "I", "u4": "J"}[v.dtype.newbyteorder("=").str[1:]],
-            **({"bzero": 2 ** (8 * v.dtype.itemsize - 1)} if v.dtype.kind == "u" else {})) for k, v in cols.items()])
-        hdu.writeto(path, overwrite=True)
+        def table(cc):
+            return fits.BinTableHDU.from_columns([fits.Column(name=k, array=v, format={
+                "f8": "D", "f4": "E", "i8": "K", "i4": "J", "u2": "I", "u4": "J"}[v.dtype.newbyteorder("=").str[1:]],
+                **({"bzero": 2 ** (8 * v.dtype.itemsize - 1)} if v.dtype.kind == "u" else {})) for k, v in cc.items()])
+
+        if decoy_rows is None:
+            table(cols).writeto(path, overwrite=True)
+        else:
+            n = len(next(iter(cols.values())))
+            idx = np.arange(decoy_rows) % max(n, 1)
+            decoy = {k: (v[idx][::-1].copy() if n else v) for k, v in cols.items()}
+            fits.HDUList([fits.PrimaryHDU(), table(decoy), table(cols)]).writeto(path, overwrite=True)
     elif kind == "parquet":
         import pyarrow as pa
         from pyarrow import parquet
